@@ -386,11 +386,78 @@ impl SeqModel for C15 {
     }
 }
 
+/// Dry runs of the hot/cold repair: a hot/cold repository after two backups, every single hot file
+/// removed in turn and all of them at once; `repair_hotcold_except_packs(true)` and
+/// `repair_hotcold_packs(true)` must issue no mutating call on either store.
+fn hotcold_dry_runs(rep: &mut Report, args: &Args) {
+    let env = Env::hotcold();
+    let mut c = tiny_config(2);
+    c.datapack_size = Some(600);
+    c.datapack_growfactor = Some(0);
+    c.treepack_size = Some(500);
+    c.treepack_growfactor = Some(0);
+    c.is_hot = Some(true);
+    _ = env.init_with(c).expect("init");
+    for v in 0..2 {
+        let repo = env.open_ids().expect("open");
+        _ = backup_with(&repo, &MemSource::new("r", source(v)), &format!("s{v}"), T0 + 1000 + v as i64, &bopts()).expect("backup");
+    }
+    let stores = env.stores();
+    let hot_files: Vec<(FileType, rustic_core::Id)> = stores[1].files.iter().map(|(t, i, _)| (*t, *i)).collect();
+    let mut cases: Vec<Vec<usize>> = (0..hot_files.len()).map(|i| vec![i]).collect();
+    cases.push((0..hot_files.len()).filter(|i| hot_files[*i].0 != FileType::Config).collect());
+    for (ci, removed) in cases.iter().enumerate() {
+        if !args.mine(ci) {
+            continue;
+        }
+        let mut hot = stores[1].clone();
+        for i in removed {
+            _ = hot.del(hot_files[*i].0, &hot_files[*i].1);
+        }
+        if hot.get(FileType::Config, &rustic_core::Id::default()).is_none() {
+            // without the hot config the repository cannot be opened through both stores
+            continue;
+        }
+        let mut e = Env::new(vkit::backend::World::from_stores(vec![stores[0].clone(), hot]).shared());
+        e.hot = Some(1);
+        rep.inc("hotcold_dry_run_cases");
+        e.world.lock().unwrap().reset_log();
+        let r = (|| -> Result<(), String> {
+            e.new_repo().map_err(|x| x.display_log())?.repair_hotcold_except_packs(true).map_err(|x| x.display_log())?;
+            e.open().map_err(|x| x.display_log())?.repair_hotcold_packs(true).map_err(|x| x.display_log())
+        })();
+        let nmut = e.world.lock().unwrap().mut_ops().len();
+        let case = json!({"part": "hotcold-dry-run", "removed_hot_files": removed});
+        if nmut > 0 {
+            let sig = "C15/dry-run-wrote/RepairHotCold/dry".to_string();
+            if !rep.has_violation(&sig) {
+                rep.violation(sig, format!("dry-run hot/cold repair with hot files {removed:?} removed issued {nmut} mutating backend calls (result {r:?})"), case);
+            }
+        } else if r.is_err() {
+            // (a dry run repairs nothing: with a hot key or index file missing the second step cannot
+            // open the repository - an error, but no write)
+            rep.inc("hotcold_dry_run_errors");
+        }
+    }
+}
+
 pub fn run(args: &Args, rep: &mut Report) {
     let raw = RawKey::from_master(&master_key());
     let quick = args.quick();
     let depth = if quick { 3 } else { 4 };
     let m = C15 { raw, n_prune: if quick { N_PRUNE_QUICK } else { N_PRUNE_ALL } };
-    rep.set_meta("bounds", json!(format!("BFS depth {depth} from an append-only and a normal repository (3 snapshots, one forgotten) over every public mutating operation, each with its dry-run flag where it has one; {} prune option vectors; environment step: lose a data pack", m.n_prune)));
+    rep.set_meta("bounds", json!(format!("BFS depth {depth} from an append-only and a normal repository (3 snapshots, one forgotten) over every public mutating operation, each with its dry-run flag where it has one; {} prune option vectors; environment steps: lose a data pack, an unindexed pack appears; plus dry runs of the hot/cold repair with every single hot file (and all of them) removed", m.n_prune)));
+    if let Some(p) = &args.replay {
+        let v: serde_json::Value = serde_json::from_str(&std::fs::read_to_string(p).unwrap_or_default()).unwrap_or_default();
+        if v["case"]["part"].as_str() == Some("hotcold-dry-run") {
+            let mut a2 = args.clone();
+            a2.replay = None;
+            a2.shard = 0;
+            a2.nshards = 1;
+            hotcold_dry_runs(rep, &a2);
+            return;
+        }
+    }
     bfs(&m, depth, 100_000, args, rep);
+    hotcold_dry_runs(rep, args);
 }
